@@ -130,16 +130,22 @@ def run_e2e(report, n_fonts, rng, formats=("glyf_colr_1", "cff_colr_1", "cff2_co
     for name, fmts, tol, texts in CORPUS_SETS:
         srcs = [(build.filename_for((0x1F600 + k,)), t, (0x1F600 + k,)) for k, t in enumerate(texts)]
         for metrics in (dict(upem=1024, ascender=896, descender=-128, width=1024), dict()):
-            plans.append((dict(color_format="glyf_colr_1", reuse_tolerance=tol, **metrics), srcs))
+            plans.append((dict(color_format="glyf_colr_1", reuse_tolerance=tol, **metrics), srcs, None))
+    # the same oracle on fonts built by the real command line (options by flag and by config file, with the
+    # values most easily lost on the way to the font-writing step: zeros, false, "reuse off")
+    docs, srcs = e2e.gen_sources(rng, n=3)
+    plans.append((dict(color_format="glyf_colr_1", upem=1000, ascender=1000, descender=0, width=0, clipbox_quantization=37), srcs, "flag"))
+    docs, srcs = e2e.gen_sources(rng, n=2)
+    plans.append((dict(color_format="cff_colr_1", output_file="Font.otf", upem=1024, ascender=820, descender=-204, width=0, reuse_tolerance=-1.0, clip_to_viewbox=False), srcs, "file"))
     for i in range(n_fonts):
         fmt = formats[i % len(formats)]
         cfg_over = e2e.gen_config(rng, fmt)
         docs, srcs = e2e.gen_sources(rng)
-        plans.append((cfg_over, srcs))
-    for i, (cfg_over, srcs) in enumerate(plans):
+        plans.append((cfg_over, srcs, None))
+    for i, (cfg_over, srcs, via) in enumerate(plans):
         fmt = cfg_over["color_format"]
         try:
-            font, cfg, picos, data = build.build_inprocess(cfg_over, srcs)
+            font, cfg, picos, data = build.build_cli(cfg_over, srcs, via) if via else build.build_inprocess(cfg_over, srcs)
         except Exception as ex:  # a build failure on valid input is a finding of its own
             report_failure(report, f"e2e_build_{i}", dict(kind="e2e", config={k: str(v) for k, v in cfg_over.items()}, sources=[s[1] for s in srcs], error=f"{type(ex).__name__}: {ex}"))
             return
@@ -147,7 +153,8 @@ def run_e2e(report, n_fonts, rng, formats=("glyf_colr_1", "cff_colr_1", "cff2_co
         n = e2e.check_colr_glyphs(font, cfg, srcs, picos, problems)
         report.count(("e2e", fmt, tuple(s[1] for s in srcs), str(sorted(cfg_over.items(), key=lambda kv: kv[0]))), n > 0, n)
         report.hist("e2e.format", fmt)
-        report.hist("e2e.reuse_tolerance", cfg_over["reuse_tolerance"])
+        report.hist("e2e.reuse_tolerance", cfg_over.get("reuse_tolerance", "default"))
+        report.hist("e2e.built_by", "command line, options by " + via if via else "in process")
         report.hist("e2e.user_transform", "yes" if "transform" in cfg_over else "no")
         if problems:
             report_failure(report, f"e2e_{i}", dict(kind="e2e", format=fmt, config={k: str(v) for k, v in cfg_over.items()}, problems=problems[:3], sources=[s[1] for s in srcs]))
